@@ -156,8 +156,17 @@ def selftest():
         if d != a:
             problems.append("%s: fresh interpreter under PYTHONHASHSEED=4242 differs (%d digests, rc=%d) %s"
                             % (prop, len(d), p.returncode, p.stderr[-500:]))
-        print("selftest %s: %d seeds x (2 in-process + 1-worker pool + 16-worker pool + fresh interpreter) ok=%s"
-              % (prop, n, not any(x.startswith(prop) for x in problems)))
+        # another VERIF_SEED, fewer runs: in-process twice and an 8-worker pool
+        a2 = digests(prop, "quick", 12345, n // 4)
+        b2 = digests(prop, "quick", 12345, n // 4)
+        c2 = [r["digest"] for r in runner.run_pool(prop, "quick", 12345, n // 4, 5, 8, None)]
+        if not (a2 == b2 == c2):
+            problems.append("%s: VERIF_SEED=12345 executions differ" % prop)
+        if a2[:10] == a[:10]:
+            problems.append("%s: VERIF_SEED does not change the exploration" % prop)
+        print("selftest %s: %d seeds x (2 in-process + 1-worker pool + 16-worker pool + fresh interpreter), "
+              "%d more under another VERIF_SEED x (2 in-process + 8-worker pool) ok=%s"
+              % (prop, n, n // 4, not any(x.startswith(prop) for x in problems)))
         sys.stdout.flush()
     for prob in problems:
         print("HARNESS-ERROR: selftest: " + prob)
